@@ -91,6 +91,8 @@ class Cfg(object):
         self.nsyms = 3
         self.share = 0.25
         self.qtypes = [BOOL, INT, REAL, BV(2), BV(3)]
+        self.quant_bool_pos_only = False   # quantifiers in Boolean positions
+        self.bool_select = True            # Boolean-valued array reads
         self.__dict__.update(kw)
 
 
@@ -104,6 +106,7 @@ class Gen(object):
         self.bound = []     # stack of (name, type) currently bound
         self.funs = {}      # name -> fty
         self._names = {}
+        self.term_depth = 0  # >0 while generating below a non-Boolean node
 
     # -- symbols -----------------------------------------------------------
     def name_for(self, t, j):
@@ -246,22 +249,35 @@ class Gen(object):
         r = self.rng
         c = self.cfg
         k = t[0]
-        T = lambda ty: self.term(ty, d - 1)
+        def T(ty):
+            return self.term(ty, d - 1)
+
+        def TT(ty):
+            # child of a node that is not a Boolean connective
+            self.term_depth += 1
+            try:
+                return self.term(ty, d - 1)
+            finally:
+                self.term_depth -= 1
         choices = ['ite']
         if c.uf:
             choices.append('app')
-        if c.arrays and t[0] != 'Array' and self.type_ok(t):
+        if c.arrays and t[0] != 'Array' and self.type_ok(t) and (
+                c.bool_select or t != BOOL):
             choices.append('select')
         if k == 'Bool':
-            choices += ['and', 'or', 'not', 'implies', 'iff', 'eq', 'and',
-                        'or', 'not', 'eq']
+            choices += ['and', 'or', 'not', 'implies', 'iff', 'and', 'or',
+                        'not']
+            if any(self.type_ok(x) for x in BASE_TYPES if x != BOOL):
+                choices += ['eq', 'eq']
             if c.arith:
                 choices += ['le', 'lt', 'le']
             if c.bv:
                 choices += ['bvrel', 'bvrel']
             if c.strings:
                 choices += ['strrel']
-            if c.quant and d >= 2:
+            if c.quant and d >= 2 and not (c.quant_bool_pos_only
+                                           and self.term_depth > 0):
                 choices += ['quant', 'quant']
         elif k == 'Int':
             choices += ['plus', 'minus', 'times', 'plus', 'times']
@@ -293,7 +309,11 @@ class Gen(object):
             choices += ['store', 'store', 'arrayval']
         op = r.choice(choices)
         if op == 'ite':
-            return ('ite', None, (T(BOOL), T(t), T(t)))
+            if k == 'Bool':
+                return ('ite', None, (T(BOOL), T(t), T(t)))
+            return ('ite', None, (TT(BOOL), TT(t), TT(t)))
+        if op not in ('and', 'or', 'not', 'implies', 'iff', 'quant'):
+            T = TT
         if op == 'app':
             name, fty = self.fun(t)
             return B.App(name, fty, [T(p) for p in fty[2]])
